@@ -178,7 +178,7 @@ def survivor_stream(tier, seed):
     callback raised (Exception/BaseException, with/without handlers) the survivor must react to the rest of the
     history exactly like a fresh machine of the same class placed in the survivor's state (implementation vs
     implementation; nothing left in the queue)."""
-    n = 360 if tier == 'quick' else 12000
+    n = 720 if tier == 'quick' else 12000
     cases = []
     for i in range(n):
         rng = random.Random('C04s-%d-%d' % (seed, i))
@@ -187,10 +187,10 @@ def survivor_stream(tier, seed):
         c['history'] = [(0, e, a) for (k, e, a) in c['history']]
         cls = ALL_CLASSES[i % len(ALL_CLASSES)]
         c['cls'] = cls
-        c['queued'] = rng.choice([False, True, 'model'] if 'Async' in cls else [False, True])
+        c['queued'] = rng.choice([False, True, 'model', True, 'model'] if 'Async' in cls else [False, True])
         ncb = max([1] + [cb for _, ts in c['machine']['events'] for t in ts for cb in t['prepare'] + t['before'] + t['after'] + [x for x, _ in t['conds']]])
         c['crash_cb'] = rng.randint(1, max(1, ncb + 6))
-        c['crash_exn'] = flat.pick_exn(i)
+        c['crash_exn'] = [(3, 20), (3, 1), (4, 1), (3, 21), (3, 25), (4, 5), (3, 22), (3, 26)][(i // len(ALL_CLASSES)) % 8]   # KeyError, ... per class in turn
         c['split'] = rng.randint(1, len(c['history']) - 1)
         cases.append(c)
     obs = F.run_impl('flat', 'impl_survivor', cases)
